@@ -448,6 +448,12 @@ def run_shard(ctx, spec):
     run_hypothesis(ctx, mprop, [st.integers(0, 2 ** 32 - 1), st.integers(1, 4)], spec['n'], salt=30 + spec['k'], rounds=5, minimise=minimise_text)
 
 
+def _lift_memory_net():
+    import resource
+    hard = resource.getrlimit(resource.RLIMIT_AS)[1]
+    resource.setrlimit(resource.RLIMIT_AS, (hard, hard))       # libFuzzer has its own -rss_limit_mb
+
+
 def run_atheris(ctx, spec):
     import json
     import os
@@ -479,7 +485,7 @@ def run_atheris(ctx, spec):
         cmd = [sys.executable, '-m', 'pbt.fuzz_parser', out, '-runs=%d' % spec['runs'], '-seed=%d' % (ctx.seed * 100 + spec['k'] + 1), '-max_len=600', '-timeout=20',
                '-dict=' + os.path.join(root, 'tools', 'bare.dict'), '-print_final_stats=1', corpus]
         try:
-            r = subprocess.run(cmd, capture_output=True, text=True, env=env, cwd=root, timeout=3000)
+            r = subprocess.run(cmd, capture_output=True, text=True, env=env, cwd=root, timeout=3000, preexec_fn=_lift_memory_net)
         except subprocess.TimeoutExpired:
             ctx.discard('atheris-wall-clock')
             return
